@@ -9,6 +9,11 @@ class Segment(Line):
 
   @staticmethod
   def _subclass(data):
+    if len(data) >= 4 and re.match(r"^[0-9]+\Z", data[2]):
+      # (the length field of a GFA2 segment; a GFA1 sequence cannot consist
+      #  of digits: the line is a GFA2 segment also if its sequence has the
+      #  shape of a tag)
+      return gfapy.line.segment.GFA2
     n_positionals = len(data)-1
     for i in range(len(data)-1, 0, -1):
       if not re.search(r"^..:.:.*$", data[i]):
